@@ -34,6 +34,7 @@ F(cfg, x) == (x + 1) % (2 ^ cfg.w)
 \* valid/payload: the source's registers; q: contents of the stage (already transformed)
 CInit(cfg) == [valid |-> FALSE, payload |-> 0, q |-> <<>>]
 Unspec(cfg, st, m) == FALSE
+ResAny(cfg, st, m) == FALSE
 
 \* ---- handshake signals of the cycle
 Cap(cfg) == CASE cfg.stage = "reg" -> 1 [] cfg.stage = "fifo2" -> 2 [] OTHER -> 0
@@ -53,7 +54,7 @@ Callable(cfg, st, m, arg, calls, inp) ==
   CASE m = "write" -> ~st.valid \/ IR(cfg, st, calls, inp)
     [] cfg.kind = "sink" -> inp.valid = 1
     [] OTHER -> OV(cfg, st)                       \* read of the wrapper
-Result(cfg, st, m, calls, inp) ==
+Result(cfg, st, m, calls, inp, obs) ==
   CASE m = "write" -> 0
     [] cfg.kind = "sink" -> inp.payload
     [] OTHER -> OP(cfg, st)
